@@ -93,6 +93,19 @@ func zzStubPrngPerm(p *prng, n int) []int {
 
 func zzStubShuffleIdentity(r *mrand.Rand, n int, swap func(i, j int)) {}
 
+// zzStubShuffleRotateOrNot: a legal, deterministic Shuffle - either the identity
+// or "always draw j = 0" (swap(i, 0) for i = n-1 .. 1), chosen per harness run.
+var zzShuffleRotates bool
+
+func zzStubShuffleRotateOrNot(r *mrand.Rand, n int, swap func(i, j int)) {
+	if !zzShuffleRotates {
+		return
+	}
+	for i := n - 1; i > 0; i-- {
+		swap(i, 0)
+	}
+}
+
 func zzHasExt[T TLSExtension](spec *ClientHelloSpec) (T, bool) {
 	var zero T
 	for _, e := range spec.Extensions {
@@ -237,12 +250,14 @@ func zzC09Check(spec *ClientHelloSpec, w *Weights, withALPNForced int) {
 //verif:stub (*utls.prng).FlipWeightedCoin zzStubFlipWeightedCoin
 //verif:stub (*utls.prng).Intn zzStubPrngIntn
 //verif:stub (*utls.prng).Perm zzStubPrngPerm
-//verif:stub (*math/rand.Rand).Shuffle zzStubShuffleIdentity
+//verif:stub (*math/rand.Rand).Shuffle zzStubShuffleRotateOrNot
 //verif:expect end
-//verif:assume the SHAKE256/HKDF stream is an arbitrary function of (seed, salt, position): equal seed and salt replay equal draws; FlipWeightedCoin follows its corner contract (decided for the real function in C30) and is otherwise a stream bit; Perm and Shuffle are the identity permutation (any permutation satisfies their contract; uniformity is outside the claim); random cipher removal is disabled here (weight 0) and covered by the order lemmas
-//verif:doc generateRandomizedSpec for the three randomized ids with a symbolic seed: the weights that decide the structure of the offer (TLS 1.3, ALPN, PSS, X25519, P-521, padding, first key share, extra key shares, ALPS) are each 0 or 1, or all arbitrary (0.5); the thorough tier adds every combination with exactly one weight arbitrary and the others at 0/1; the remaining weights are all 0 or all 1. Every generated spec obeys the C09 consistency rules; weights 0 / 1 force absence / presence unless a TLS 1.3 rule overrides; generating twice from the same ClientHelloID yields structurally equal specs (any use of global randomness or the clock would break equality).
+//verif:assume the SHAKE256/HKDF stream is an arbitrary function of (seed, salt, position): equal seed and salt replay equal draws; FlipWeightedCoin follows its corner contract (decided for the real function in C30) and is otherwise a stream bit; Perm is the identity and Shuffle is either the identity or the legal deterministic permutation that always draws j = 0 (any permutation satisfies their contract; uniformity is outside the claim); random cipher removal is disabled here (weight 0) and covered by the order lemmas
+//verif:doc generateRandomizedSpec for the three randomized ids with a symbolic seed: the weights that decide the structure of the offer (TLS 1.3, ALPN, PSS, X25519, P-521, padding, first key share, extra key shares, ALPS) are each 0 or 1, or all arbitrary (0.5); the thorough tier adds every combination with exactly one weight arbitrary and the others at 0/1; the remaining weights are all 0 or all 1. Every generated spec obeys the C09 consistency rules; weights 0 / 1 force absence / presence unless a TLS 1.3 rule overrides; generating twice from the same ClientHelloID yields structurally equal specs and leaves the library's default TLS 1.3 suite order untouched (any use of global randomness or the clock would break equality).
 func zzC09RandomizedSpecConsistentAndReproducible() {
 	zzPrngs, zzPrngStreams = nil, nil
+	zzShuffleRotates = verifBool("shuffles-permute")
+	defaults13 := append([]uint16{}, defaultCipherSuitesTLS13...)
 	var seed PRNGSeed
 	copy(seed[:], verifBytes("seed", 32))
 	other := zzW("other-weights", false)
@@ -300,6 +315,11 @@ func zzC09RandomizedSpecConsistentAndReproducible() {
 	id2 := &ClientHelloID{Client: clients[ci], Seed: &seed, Weights: w}
 	spec2, err2 := generateRandomizedSpec(id2, "example.com", nil)
 	verifAssert(err2 == nil && verifDeepEq(spec, spec2, "GetPaddingLen,initOnce"), "same-id-same-spec")
+	okDef := len(defaults13) == len(defaultCipherSuitesTLS13)
+	for i := range defaults13 {
+		okDef = okDef && i < len(defaultCipherSuitesTLS13) && defaults13[i] == defaultCipherSuitesTLS13[i]
+	}
+	verifAssert(okDef, "library-default-suite-order-untouched")
 	verifReach("end")
 }
 
